@@ -397,3 +397,62 @@ def run(res, tier):
     res.assumptions = ["error handlers (mju_error, mjERROR) do not return",
                        "plugin visualize callbacks and user code outside src/engine respect the same protocol",
                        "abandoning an acquired slot on some paths is part of the protocol (the next acquire re-initialises it)"]
+
+
+# ------------------------------------------------------------------------------------------------ self-test (thorough tier)
+_CONN = ("  mjvGeom* thisgeom = acquireGeom(scn, objid, category, objtype);\n  if (!thisgeom) {\n    return;\n  }\n"
+         "  mjv_connector(thisgeom, type, width, from, to);\n  if (rgba) f2f(thisgeom->rgba, rgba, 4);\n"
+         "  releaseGeom(&thisgeom, scn);\n")
+_TEST = "  if (!thisgeom) {\n    return;\n  }\n"
+_SITE_END = ("    if (vopt->label == mjLABEL_SITE) {\n      makeLabel(m, mjOBJ_SITE, i, thisgeom->label);\n    }\n\n"
+             "    releaseGeom(&thisgeom, scn);\n")
+_RESET = "  // clear geoms\n  scn->ngeom = 0;\n"
+_INIT = "src/engine/engine_vis_init.c"
+MUTANTS = [
+    ("drop-null-test", [(VIS, _CONN, _CONN.replace(_TEST, ""))], "rule=R-NULLABLE construct=addConnector:acquire#1"),
+    ("test-other-variable", [(VIS, _CONN, _CONN.replace("if (!thisgeom)", "if (!scn)"))],
+     "rule=R-NULLABLE construct=addConnector:acquire#1"),
+    ("use-before-test", [(VIS, _CONN, _CONN.replace("  if (!thisgeom) {", "  thisgeom->objid = objid;\n  if (!thisgeom) {"))],
+     "rule=R-NULLABLE construct=addConnector:acquire#1"),
+    ("ngeom-written-elsewhere", [(VIS, "  addFlexGeoms(m, d, vopt, pert, catmask, scn);\n",
+                                  "  scn->ngeom++;\n  addFlexGeoms(m, d, vopt, pert, catmask, scn);\n")],
+     "rule=R-WHO-WRITES construct=mjv_addGeoms:ngeom:store"),
+    ("store-through-geoms", [(VIS, _RESET, _RESET + "  scn->geoms[catmask].type = 0;\n")],
+     "rule=R-WHO-WRITES construct=mjv_updateScene:geoms:store"),
+    ("drop-release", [(VIS, _SITE_END, _SITE_END.replace("    releaseGeom(&thisgeom, scn);\n", ""))],
+     "rule=R-PAIR construct=addSiteGeoms:acquire#1"),
+    ("second-release", [(VIS, _SITE_END, _SITE_END + "    releaseGeom(&thisgeom, scn);\n")],
+     "rule=R-PAIR construct=addSiteGeoms:release#2"),
+    ("release-on-null-branch", [(VIS, _CONN, _CONN.replace(_TEST, "  if (!thisgeom) {\n    releaseGeom(&thisgeom, scn);\n    return;\n  }\n"))],
+     "rule=R-PAIR construct=addConnector:release#1"),
+    ("capacity-test-weakened", [(VIS, "  if (scn->ngeom >= scn->maxgeom) {", "  if (scn->ngeom > scn->maxgeom) {")],
+     "rule=R-ACQUIRE-SHAPE construct=acquireGeom:slot-return-bounded"),
+    ("status-not-set", [(VIS, "      scn->status = 1;\n", "")], "rule=R-ACQUIRE-SHAPE construct=acquireGeom:status-set-on-overflow"),
+    ("release-check-removed", [(VIS, "  if (*geom != scn->geoms + scn->ngeom) {\n    mju_error(\"Unexpected geom pointer; did you call "
+                                     "acquireGeom?\");\n  }\n", "")],
+     "rule=R-RELEASE-SHAPE construct=releaseGeom:rejects-foreign-pointer"),
+    ("lights-unbounded", [(VIS, "  for (int i=0; i < m->nlight && scn->nlight < mjMAXLIGHT; i++) {", "  for (int i=0; i < m->nlight; i++) {")],
+     "rule=R-LIGHTS construct=mjv_makeLights:light-slot-bounded"),
+    ("allocation-mismatch", [(_INIT, "mju_malloc(maxgeom*sizeof(mjvGeom))", "mju_malloc((maxgeom-1)*sizeof(mjvGeom))")],
+     "rule=R-WHO-WRITES construct=mjv_makeScene:"),
+    # controls: behaviour-preserving edits
+    ("ctl-if-form", [(VIS, _CONN, "  mjvGeom* thisgeom = acquireGeom(scn, objid, category, objtype);\n  if (thisgeom) {\n"
+                                  "    mjv_connector(thisgeom, type, width, from, to);\n    if (rgba) f2f(thisgeom->rgba, rgba, 4);\n"
+                                  "    releaseGeom(&thisgeom, scn);\n  }\n")], None),
+    ("ctl-rename-local", [("sub", VIS, r"\bthisgeom\b", "g", "void addFrame(mjvScene* scn", "//----------------------------- camera functions")], None),
+    ("ctl-reorder", [(VIS, "  mjv_connector(thisgeom, type, width, from, to);\n  if (rgba) f2f(thisgeom->rgba, rgba, 4);\n",
+                      "  if (rgba) f2f(thisgeom->rgba, rgba, 4);\n  mjv_connector(thisgeom, type, width, from, to);\n")], None),
+    ("ctl-release-wrapper", [(VIS, "// draw 3 cylinders representing a \"frame\" decor element\n",
+                              "static void finishGeom(mjvGeom** g, mjvScene* scn) {\n  releaseGeom(g, scn);\n}\n"
+                              "// draw 3 cylinders representing a \"frame\" decor element\n"),
+                             (VIS, "    thisgeom->rgba[3] = 1;\n    releaseGeom(&thisgeom, scn);", "    thisgeom->rgba[3] = 1;\n    finishGeom(&thisgeom, scn);")], None),
+    ("ctl-acquire-wrapper", [(VIS, "// draw 3 cylinders representing a \"frame\" decor element\n",
+                              "static mjvGeom* decorGeom(mjvScene* scn, int id) {\n  return acquireGeom(scn, id, mjCAT_DECOR, mjOBJ_UNKNOWN);\n}\n"
+                              "// draw 3 cylinders representing a \"frame\" decor element\n"),
+                             (VIS, "    mjvGeom* thisgeom = acquireGeom(scn, objid, mjCAT_DECOR, mjOBJ_UNKNOWN);\n    if (!thisgeom) {\n      return;\n    }\n\n    mjv_connector(thisgeom, mjGEOM_CYLINDER",
+                              "    mjvGeom* thisgeom = decorGeom(scn, objid);\n    if (!thisgeom) {\n      return;\n    }\n\n    mjv_connector(thisgeom, mjGEOM_CYLINDER")], None),
+]
+
+
+def selftest(res):
+    r_acquire.run_mutants("C50", MUTANTS, res)
